@@ -136,7 +136,7 @@ pub trait CtGreater: Sized {
     ///
     /// This is equivalent to calling `ct_gt` with the argument swapped
     fn ct_le(a: Self, b: Self) -> Choice {
-        Self::ct_gt(b, a)
+        Self::ct_gt(a, b).negate()
     }
 }
 
@@ -153,7 +153,7 @@ pub trait CtLesser: Sized {
     ///
     /// This is equivalent of calling `ct_lt` with the argument swapped
     fn ct_ge(a: Self, b: Self) -> Choice {
-        Self::ct_lt(b, a)
+        Self::ct_lt(a, b).negate()
     }
 }
 
